@@ -290,12 +290,14 @@ def prop_C05(ctx, tier):
     run = Run('C05', tier,
               'K1: oversize test is NEW_SIZE > MAX_MEM and its true edge leaves no net entry and never enters the eviction loop. K2: the fit test is MEM_SUM <= MAX_MEM where the new entry is '
               'already stored, MEM_SUM+NEW_SIZE <= MAX_MEM where it is not; under the "fits" oracle nothing is evicted. K3: the sum ranges over all stored values. P1: every loop iteration '
-              'removes exactly one victim (the same key) from store and queue, and an iteration that removed nothing leaves the loop. E2: an own-key replacement precedes the fit test. S1: estimator impls count capacity and recurse into every component. '
+              'removes exactly one victim (the same key) from store and queue, and an iteration that removed nothing leaves the loop. E2: an own-key replacement precedes the fit test. S1: estimator impls count capacity and recurse into every component. S2: each estimator impl, normalised to a polynomial over size_of / capacity / recursive estimates, equals the reviewed formula (inline size + owned heap capacity). '
               'W1: max_memory selects the memory-aware store. Not decided: numeric totals.', ASSUME_COMMON)
     K.check_memory_forms(run, ctx)
     K.check_replacement_before_fit_test(run, ctx)
     K.check_memory_loop(run, ctx)
     S.check_estimators(run, ctx)
+    from . import rules_est as EST
+    EST.check_estimator_forms(run, ctx)
     S.check_victim_key_identity(run, ctx, 'C05-P2')
     _also_nostats(ctx, tier, run, [K.check_memory_forms, K.check_memory_loop, S.check_estimators])
     W.check_memory_store_selected(run, ctx)
